@@ -18,16 +18,12 @@ THEOREMS = ["anchors_sorted", "anchor_true_partial", "anchor_true_no_truncation"
             "add_shift_needs_side_condition", "entries_sorted"]
 ALL_OK = "dst=ok src=ok sorted=ok cover=ok anchors=ok"
 KEY_BLANK = "render:blank-anchor-past-eol-after-trailing-space-removal"
-KEY_PANIC = "emitter:strip_comments-without-vertical_align:last_token-none-panic"
 
 
 def classify(v, opt=""):
-    """'dst=BAD:blank:1f src=ok …' -> key of the known finding if the ONLY failure is a blank anchor past EOL;
-    an emitter panic `unwrap on None` under strip_comments=1, vertical_align=0 -> the known panic."""
-    o = opt.split(".")
-    if (v.startswith("noemit:emitter/src/emitter.rs:") and "Option::unwrap()" in v and len(o) == 6 and o[2] == "0"
-            and o[4] == "1"):
-        return KEY_PANIC
+    """'dst=BAD:blank:1f src=ok …' -> key of the known finding if the ONLY failure is a blank anchor past EOL.
+    (The emitter panic under strip_comments=1, vertical_align=0 was repaired in /repo — fix 954ed37 —: it has no
+    key any more, a recurrence (`noemit:…`) is a VIOLATION.)"""
     f = v.split(" ")
     if len(f) == 5 and f[0].startswith("dst=BAD:blank:") and f[1:] == ALL_OK.split(" ")[1:]:
         return KEY_BLANK
